@@ -1,7 +1,7 @@
 SPECIFICATION Spec
 CONSTANTS
   MaxOps = 2
-  Groups = {"list", "listns", "tree", "arr", "mat", "ds"}
+  Groups = {"list", "listns", "tree", "arr", "mat", "ds", "memo", "seed"}
   Big = FALSE
   Focus = ""
   Wide = FALSE
